@@ -1,0 +1,44 @@
+//go:build verif
+
+package protocol
+
+import (
+	"fmt"
+
+	"github.com/enfein/mieru/v3/pkg/appctl/appctlpb"
+	"github.com/enfein/mieru/v3/pkg/cipher"
+	"github.com/enfein/mieru/v3/pkg/common"
+)
+
+// Exports for the external verification harness (property C09, second file). Add-only; compiled only with -tags verif.
+
+// VerifC09SessionReplyKeys feeds a bare server-side packet session the authentic ackClientToServer segments of one
+// user, segment i carrying the cipher blocks[i] that opened it (as PacketUnderlay.readOneSegment sets seg.block),
+// through the real Session.input, and reports after each segment the key of the cipher the session holds.
+// PacketUnderlay.writeOneSegment seals every datagram the session generates with that cipher (*s.block.Load()).
+func VerifC09SessionReplyKeys(users map[string]*appctlpb.User, blocks []cipher.BlockCipher) (keys [][]byte, err error) {
+	defer func() {
+		if p := recover(); p != nil {
+			err = fmt.Errorf("panic: %v", p)
+		}
+	}()
+	s := NewSession(1, false, 1400, users, nil)
+	s.transportProtocol = common.PacketTransport
+	for i, b := range blocks {
+		seg := &segment{
+			metadata:  &dataAckStruct{baseStruct: baseStruct{protocol: uint8(ackClientToServer)}, sessionID: 1, seq: uint32(i), unAckSeq: 0, windowSize: 16},
+			transport: common.PacketTransport,
+			block:     b,
+		}
+		if err := s.input(seg); err != nil {
+			return keys, err
+		}
+		cur := s.block.Load()
+		if cur == nil || *cur == nil {
+			keys = append(keys, nil)
+			continue
+		}
+		keys = append(keys, cipher.VerifC09CipherKey(*cur))
+	}
+	return keys, nil
+}
